@@ -7,10 +7,14 @@ export GOFLAGS=-mod=mod GOPROXY=off GOSUMDB=off GOTOOLCHAIN=local
 P="$1"; OUT="$2"; shift 2
 CHECKS="${*:-C01 C02 C03 C04 C05 C06 C07 C08 C09 C10 C11 C12 C13 C14 C15 C16 C17 C18 C19 C20}"
 W=$(mktemp -d /tmp/wben.XXXXXX); rmdir "$W"
-git -C /repo worktree add --detach "$W" ${BENIGN_BASE:-a54dab0} >/dev/null 2>&1 || { echo "worktree failed"; exit 2; }
+git -C /repo worktree add --detach "$W" >/dev/null 2>&1 || { echo "worktree failed"; exit 2; }
 cleanup() { git -C /repo worktree remove --force "$W" >/dev/null 2>&1; rm -rf "$W"; }
 trap cleanup EXIT
-git -C "$W" apply "$P" || { echo "patch failed" > "$OUT"; exit 2; }
+if ! git -C "$W" apply "$P" 2>/dev/null; then
+  # written against an older HEAD: fall back to the commit the patch authors saw
+  git -C "$W" checkout -q --detach ${BENIGN_BASE:-a54dab0} && git -C "$W" apply "$P" || { echo "patch failed" > "$OUT"; exit 2; }
+  echo "# applied on ${BENIGN_BASE:-a54dab0} (does not apply to HEAD)" > "$OUT.base"
+fi
 (cd "$W" && go build ./...) || { echo "does not compile" > "$OUT"; exit 3; }
 : > "$OUT"
 for c in $CHECKS; do
